@@ -1740,15 +1740,19 @@ OptResult NifFile::OptimizeFor(OptOptions& options) {
 										}
 
 										if (part.hasBoneIndices) {
+											// Bone indices of a partition can point past its bone list
+											auto partBone = [&part](const uint8_t boneIndex) -> uint8_t {
+												if (boneIndex < part.bones.size())
+													return static_cast<uint8_t>(part.bones[boneIndex]);
+
+												return 0;
+											};
+
 											auto& boneIndices = part.boneIndices[i];
-											vertex.weightBones[0] = static_cast<uint8_t>(
-												part.bones[boneIndices.i1]);
-											vertex.weightBones[1] = static_cast<uint8_t>(
-												part.bones[boneIndices.i2]);
-											vertex.weightBones[2] = static_cast<uint8_t>(
-												part.bones[boneIndices.i3]);
-											vertex.weightBones[3] = static_cast<uint8_t>(
-												part.bones[boneIndices.i4]);
+											vertex.weightBones[0] = partBone(boneIndices.i1);
+											vertex.weightBones[1] = partBone(boneIndices.i2);
+											vertex.weightBones[2] = partBone(boneIndices.i3);
+											vertex.weightBones[3] = partBone(boneIndices.i4);
 										}
 									}
 								}
@@ -2289,7 +2293,7 @@ bool NifFile::RenameDuplicateShapes() {
 				if (duped) {
 					std::string dup = "_" + std::to_string(dupCount);
 
-					while (countDupes(node, shapeName + dup) > 1) {
+					while (countDupes(node, shapeName + dup) > 0) {
 						dupCount++;
 						dup = "_" + std::to_string(dupCount);
 					}
@@ -3021,6 +3025,7 @@ void NifFile::SetDefaultPartition(NiShape* shape) {
 	auto skinPart = hdr.GetBlock(skinInst->skinPartitionRef);
 	if (skinPart) {
 		NiSkinPartition::PartitionBlock part;
+		part.hasFaces = true;
 		if (numVertices > 0) {
 			part.hasVertexMap = true;
 			part.numVertices = numVertices;
